@@ -122,10 +122,15 @@ ALSO = {
  "C02": " Also: no read after the first of a record can leave readRecord as a clean io.EOF; the batch pre-validation uses writeRecord's own size formula; fragment writer/reader agree on chunk boundaries.",
  "C03": " Also: a successful transactional Put/Delete has buffered exactly that operation; a log file is reused for appending only behind a clean tail; the retry wrapper's decision table (success only after a successful call; error after exhausted retries).",
  "C04": " Also: a successful transactional Put/Delete has buffered exactly that operation; batch entries are stamped with the number the log assigned; an empty value is never turned into a deletion marker.",
- "C06": " Also: the retry wrapper's decision table; immutable memtables leave the pool only into the flush path; the sequence counter is handed over at rotation.",
+ "C06": " Also: the retry wrapper's decision table; immutable memtables leave the pool only into the flush path; the sequence counter is handed over at rotation; every Append* reads the status with WAL.mu held.",
  "C07": " Also: the database-wide transaction lock is released on every exit of Commit/Rollback after the active swap.",
- "C13": " Also: Compress/Decompress handle the same codecs with inverse library calls; per entry type the applier performs the primary's operation with the entry's own key and value.",
- "C14": " Also (shared with C13): the replica's cursor discipline.",
+ "C13": " Also: Compress/Decompress handle the same codecs with inverse library calls and return fresh memory; per entry type the applier performs the primary's operation with the entry's own key and value.",
+ "C14": " Also (shared with C13): the replica's cursor discipline; the 'nothing to send' exits of the catch-up reader are decided by the log's own counter; the replica does not lower its gRPC receive limit below the default.",
+ "C08": " Also: every Append* reads the closed/rotating status with WAL.mu held.",
+ "C09": " Also: Append routes by exactly the payload size writeRecord builds; parseEntryData's slices are bounds-checked.",
+ "C10": " Also: the errors ReplayWALFile returns from its damage-handling region are classified 'skip' by ReplayWALDir; no read after the first of a record can leave readRecord as a clean io.EOF.",
+ "C11": " Also: block.NewReader's callers hand over freshly allocated bytes; decoder limits are not below the format maximum; seek landing (structural part): a lower-bound restart search must examine the previous interval and the index seek must agree with the first-key index — both violated on this tree (recorded findings).",
+ "C12": " Also: the selection range is the union of the selected files (min and max updated independently); sort comparators index the slice being sorted.",
 }
 
 def main():
